@@ -65,7 +65,9 @@ ASSUMPTIONS = [
     "is feasible (>= sum xmin): at return the design must satisfy x*_i(lam*+tol)-s <= x_i <= x*_i(lam*-tol)+s with "
     "s = 1e-12*(1+|x_i|) (+ tolx*||x|| when the run ended by a stopping criterion). Derivation: a step that is not "
     "move-limited equals x*(lam_c) with |lam_c-lam*|<=tol because clipping is monotone and 1-Lipschitz. A run that ends "
-    "by maxit while still move-limited is a violation only in block 'conv' whose budget is 3*ceil(max(xmax-xmin)/move)+30 "
+    "by maxit while still move-limited is a violation only if the band [x*(lam*+tol), x*(lam*-tol)] is narrower than "
+    "move/2 (otherwise the real iteration may legitimately limit-cycle with amplitude move around the optimum: observed "
+    "with l1l2tol=1e-2, lam*=0.13, move=0.01) and only with history kind 'conv' whose budget is 3*ceil(max(xmax-xmin)/move)+30 "
     "iterations (measured on the unchanged tree: responses <= 1.5*ceil(max|x0-x*|/move)+10; histograms in counters conv_iterations_over_distance and conv_budget_used); a run stopped by tolf>0 right "
     "after a move-limited step is not judged",
     "objective values are non-zero and finite on the box; tolx > 0; 'consecutive evaluated designs differ' is asserted "
@@ -629,6 +631,10 @@ def run_case(case, ctx):
             D.append(xf)
             ctx.count("final_unrecorded_designs")
 
+        ctx.log(f"run {irun}: {nresp} responses, {len(D)} designs, kwargs", {k_: (v_ if np.ndim(v_) == 0 else "vector")
+                                                                            for k_, v_ in kw.items()})
+        for k_ in sorted(set(list(range(0, len(D), max(1, len(D) // 25))) + [len(D) - 1])):
+            ctx.log(f"  design {k_}: volume {float(np.sum(D[k_])):.9g} (target {Vt:.9g})", np.round(D[k_], 6).tolist())
         # ---------------------------------------------------------------- per produced design
         nvol = nbox = nfam = npos = 0
         for k in range(len(D) - 1):
@@ -724,9 +730,18 @@ def run_case(case, ctx):
                 if not limited:
                     slack = 0.0
                 elif hk == "conv":
-                    conv = "violated"
-                    violate("convergence/still-move-limited-after-iteration-budget", iterations=nresp, move=move,
-                            x0=xstart, final=xe, budget=budget)
+                    # A move-limited limit cycle around the optimum is legitimate when the bisection cannot resolve the
+                    # multiplier finer than the move limit: the overshoot of a step is at most the width w of the band
+                    # [x*(lam*+tol), x*(lam*-tol)]; for w <= move the next step absorbs it without being move-limited.
+                    br_ = fam.bracket(Vt, delta, tol, l1, l2)
+                    if br_ is None:
+                        conv = "multiplier-outside-range"
+                    elif float(np.max(br_[1] - br_[0])) > 0.5 * move:
+                        conv = "bisection-band-wider-than-half-move"
+                    else:
+                        conv = "violated"
+                        violate("convergence/still-move-limited-after-iteration-budget", iterations=nresp, move=move,
+                                x0=xstart, final=xe, budget=budget, optimum_between=br_[:2], c_eff=ceff)
                 else:
                     conv = "history-too-short"
             else:                                          # stopped by a criterion
